@@ -220,7 +220,12 @@ pub fn run(ctx: &Ctx) -> Report {
 				queries.push(Some(x.clone()));
 				fragments.push(Some(x.clone()));
 			}
-			let schemes = vec![None, Some(domains::b("s"))];
+			// components that are usually short: a scheme of 254..300 bytes, a port of 70 digits
+			let mut schemes = vec![None, Some(domains::b("s"))];
+			for n in [254usize, 255, 256, 300] {
+				schemes.push(Some(format!("s{}", "c".repeat(n - 1)).into_bytes()));
+			}
+			auths.push(Some(format!("h:{}", "1234567890".repeat(7)).into_bytes()));
 			let r = run_shards(ctx, auths.len(), |ai| {
 				let mut r = Report::new();
 				let mut vs = Vec::new();
@@ -282,7 +287,7 @@ pub fn auth_twin_alphabet() -> Vec<Vec<u8>> {
 pub fn run_c03(ctx: &Ctx) -> Report {
 	let refs = Refs::new(&ctx.root);
 	let mut total = Report::new();
-	total.rule = "every string of <= n tokens over {a 1 : @ [ ] . %41 v (é)} accepted by the reference authority DFA, plus the product AUTH = userinfo x host x port, each stand-alone and embedded in s://A/p?q#f, //A and s://A; one case = accessors and parts() on one authority; non-trivial = distinct (text, embedding)".into();
+	total.rule = "every string of <= n tokens over {a 1 : @ [ ] . %41 v (é)} accepted by the reference authority DFA, plus the product AUTH = userinfo x host x port, class-complete values (all digits, hex digits, sub-delimiters, many colons), each stand-alone and embedded in s://A/p?q#f, //A, s://A and s://A?q/r@:#f/g@:; one case = accessors and parts() on one authority; non-trivial = distinct (text, embedding)".into();
 	let n = ctx.pick(7usize, 8usize);
 	for f in Family::active() {
 		let fr = FamRefs::new(refs, f);
@@ -301,6 +306,12 @@ pub fn run_c03(ctx: &Ctx) -> Report {
 					t.extend_from_slice(b"//");
 					t.extend_from_slice(a);
 				}
+				3 => {
+					// empty path, then a query and a fragment holding the delimiters that END an authority
+					t.extend_from_slice(b"s://");
+					t.extend_from_slice(a);
+					t.extend_from_slice(b"?q/r@:#f/g@:");
+				}
 				_ => {
 					t.extend_from_slice(b"s://");
 					t.extend_from_slice(a);
@@ -311,14 +322,14 @@ pub fn run_c03(ctx: &Ctx) -> Report {
 		let one = |a: &[u8], r: &mut Report, vs: &mut Vec<Violation>| {
 			r.states += 1;
 			let mut e = by_family!(f, c03_case(a, false, &fr, vs));
-			for w in 0..3 {
+			for w in 0..4 {
 				let t = wrap(a, w);
 				e += by_family!(f, c03_case(&t, true, &fr, vs));
 			}
 			r.evaluations += e;
 			r.transitions += e;
-			r.distinct_nontrivial += 4;
-			r.traces += 4;
+			r.distinct_nontrivial += 5;
+			r.traces += 5;
 			for v in vs.drain(..) {
 				r.violate(v);
 			}
@@ -379,6 +390,21 @@ pub fn run_c03(ctx: &Ctx) -> Report {
 			one(&t, &mut r, &mut vs);
 			if r.states % 37 == 1 {
 				r.sample(json!({"fam": f.name(), "authority": String::from_utf8_lossy(&t)}));
+			}
+		}
+		// class-complete values: every member of the small character classes at least once in
+		// each position (all ten digits in ports and IPv4 octets, every hex digit in both cases in
+		// IPv6 groups and %XX triplets, every sub-delimiter), and many delimiters in one authority
+		for t in [
+			"h:9", "h:0", "h:1234567890", "h:0987654321", "u@h:9", "[::1]:9", "[::9]:90", "255.249.199.9", "9.8.7.6:5", "[9:a:b:c:d:e:f:0]", "[A:B:C:D:E:F:0:9]:9",
+			"[::ffff:9.8.7.6]", "[v9.a]", "[vF.9:9]", "%0F%9A%af%Fa%bC", "%99@%99:99", "!$&'()*+,;=@!$&'()*+,;=:9", "u:p:q:r:s:t:u:v:w@[1:2:3:4:5:6:7:8]:80", "a.b.c.d.e.f.g.h.i.j.k",
+			"0", "9", "09", "a9", "9a", "-._~", "%2D%2E%5F%7E",
+		] {
+			let t = domains::b(t);
+			if fr.valid(Kind::Authority, &t) {
+				one(&t, &mut r, &mut vs);
+			} else {
+				r.count("class_complete_rejected_by_reference", 1);
 			}
 		}
 		total.count(&format!("{}_auth_product", f.name()), r.states);
